@@ -210,6 +210,20 @@ def r12_3_6(ctx, A):
                 if l is not None and table_f in l[1:2] and g.local_ty(l[0]).find('registry::Registry') >= 0:
                     grow.append(g.path)
     ctx.check(R3, not grow, 'table-fixed', 'the cache table is resized outside its constructor: %s' % grow)
+    # the builder's cache is created once: replacing it (or its table) later forgets every node seen so far
+    regf = [fd['name'] for fd in lib.adts.get(A.builder, {'variants': [{'fields': []}]})['variants'][0]['fields'] if fd['ty'].startswith(REG)]
+    repl = []
+    for g in lib.fn_list:
+        for (bid, idx, tgt, kind, extra) in g.raw_defs():
+            if kind not in ('assign', 'call') or len(tgt) < 2 or not isinstance(tgt[0], int):
+                continue
+            rt = g.local_ty(tgt[0])
+            if (A.builder + '<') in rt and tgt[1] in regf and len(tgt) == 2:
+                repl.append((g, bid))
+            if rt.replace('&mut ', '').lstrip("&'{}erasd ").startswith(REG) and table_f is not None and tgt[1] == table_f and len(tgt) == 2:
+                repl.append((g, bid))
+    ctx.check(R3, bool(regf) and not repl, 'cache-created-once', 'the node cache is replaced after construction in %s: every node registered so far is forgotten and later equal nodes are emitted again' % sorted({g.path for g, _ in repl}),
+              fn=repl[0][0] if repl else None)
     # R12.6
     hs = [g for g in lib.fn_list if g.impl and g.impl['self_ty'] == REG and g.local_ty(0) == 'usize' and g.arg_count == 2 and g.kind == 'AssocFn']
     if len(hs) == 1 and rows_f:
